@@ -416,10 +416,15 @@ func openapiRich() {
 			Payload(func() {
 				Token("token", String)
 				Attribute("id", UInt)
-				Required("token", "id")
+				Attribute("rev", UInt)
+				Attribute("force", Boolean)
+				Attribute("reason", String)
+				Required("token", "id", "rev")
 			})
 			HTTP(func() {
-				DELETE("/items/{id}")
+				DELETE("/items/{id}/revs/{rev}")
+				Param("force")
+				Param("reason")
 				Response(StatusNoContent)
 			})
 		})
